@@ -252,6 +252,19 @@ func scalarKey(v any) string {
 func (t *Type) zero() any {
 	switch t.Kind {
 	case Fixed:
+		if (t.Base == "Enum8" || t.Base == "Enum16") && len(t.Args) > 0 {
+			// the default of an enum is its first declared member (0 need not be one)
+			if _, v, ok := strings.Cut(t.Args[0], "="); ok {
+				if n, err := strconv.Atoi(strings.TrimSpace(v)); err == nil {
+					b := make([]byte, t.Width)
+					b[0] = byte(n)
+					if t.Width == 2 {
+						b[1] = byte(n >> 8)
+					}
+					return b
+				}
+			}
+		}
 		return make([]byte, t.Width)
 	case String:
 		return []byte{}
